@@ -44,6 +44,13 @@ def r1(ctx):
     cg = [c for c in calls(wloop, tail="create_group")]
     ctx.need(len(cg) == 1, "ThetaHolder.save_h5: per-sample create_group not found")
     name_expr = cg[0].args[0]
+    # a template kept in a module constant reads as the template
+    if isinstance(name_expr, ast.Call) and isinstance(name_expr.func, ast.Attribute) and name_expr.func.attr == "format" and isinstance(name_expr.func.value, ast.Name):
+        cv_ = ctx.R.const_value(sf.mod, name_expr.func.value.id)
+        if isinstance(cv_, ast.Constant) and isinstance(cv_.value, str):
+            import copy as _copy
+            name_expr = _copy.deepcopy(name_expr)
+            name_expr.func.value = cv_
     nm = U(name_expr).replace(" ", "")
     if nm in (f"str({iv})", f"f'{{{iv}}}'", f"'{{}}'.format({iv})", f"'%d'%{iv}"):
         scheme = "decimal"
@@ -77,13 +84,16 @@ def r1(ctx):
         order = "numeric" if idx and len(it.args) == 1 else None
     elif isinstance(it, ast.Call) and attr_tail(it) in ("keys", "values", "items") or isinstance(it, (ast.Name, ast.Subscript)):
         order = "creation" if tracked else "string"
-    ok = (scheme == "decimal" and order in ("numeric",)) or (scheme == "decimal" and order == "creation") or (scheme == "zero-padded" and order in ("string", "numeric"))
+    # zero-padded names of a fixed width sort like numbers only below 10^width: for every collection size only the numeric order is right
+    ok = (scheme == "decimal" and order in ("numeric",)) or (scheme == "decimal" and order == "creation") or (scheme == "zero-padded" and order in ("numeric", "creation"))
     if scheme is None or order is None:
         raise AnalysisError(f"ThetaHolder save/load: unrecognised group naming `{nm}` / visiting order `{detail}`")
     ctx.check("R1", "core.ThetaHolder.load_h5<->save_h5::sample-order", ok and start is None,
               f"groups named by {scheme} index, visited in {order} order",
-              f"groups are named `{nm}` ({scheme}) but visited in {order} order (`{detail[:70]}`): from 10 samples on the reloaded order differs "
-              f"('10' sorts before '2')" + ("" if start is None else "; enumeration does not start at 0"))
+              f"groups are named `{nm}` ({scheme}) but visited in {order} order (`{detail[:70]}`): " +
+              ("from 10 samples on the reloaded order differs ('10' sorts before '2')" if scheme == "decimal" else
+               "names of a fixed width sort like numbers only until the index outgrows the width ('10000' sorts before '1001'): a larger collection reloads in another order")
+              + ("" if start is None else "; enumeration does not start at 0"))
     # --- dataset/attr symmetry
     def writer_kinds(fnode):
         """per `for K, V in D.items()` loop: (loop, dataset writes, attribute writes) with the polarity of the
@@ -398,6 +408,13 @@ def lookup_columns(sf, sd, senv):
             e0 = e
         if isinstance(e0, ast.Name) and e0.id in appended:
             init = [n for n in walk_own(sf.node) if isinstance(n, ast.Assign) and U(n.targets[0]) == e0.id]
+            # a, b, c = [], [], []
+            for n in walk_own(sf.node):
+                if isinstance(n, ast.Assign) and len(n.targets) == 1 and isinstance(n.targets[0], (ast.Tuple, ast.List)) and isinstance(n.value, (ast.Tuple, ast.List)) \
+                        and len(n.targets[0].elts) == len(n.value.elts):
+                    for t_, v_ in zip(n.targets[0].elts, n.value.elts):
+                        if U(t_) == e0.id:
+                            init.append(ast.Assign(targets=[t_], value=v_, lineno=n.lineno, col_offset=0))
             if len(init) != 1 or not (isinstance(init[0].value, ast.List) and not init[0].value.elts):
                 raise AnalysisError(f"{sf.site()}: column `{e0.id}` does not start empty")
             cols[k.value] = appended[e0.id]
